@@ -252,6 +252,10 @@ def search_limits(r, epg, ncase):
                 sm3 = epg.T(35.0, -40.0)(epg.S(1)(epg.T(60.0, 20.0)(sm3)))
                 e = np.asarray(epg.X(taus[None, :], k)(sm3).states)
                 f = np.stack([np.asarray(epg.X(float(t), k)(sm2).states) for t in taus], axis=1)
+                # exactly zero generators with a batch: identity
+                z1 = np.asarray(epg.X(taus[None, :], np.zeros((2, 2)))(sm3).states)
+                z2 = np.asarray(epg.X(np.zeros((1, 3)), k)(sm3).states)
+                z0 = np.asarray(sm3.states)
                 # rejection of a kinetic matrix that does not conserve the equilibrium of the state it is applied to,
                 # also when the same operator object has been applied to a compatible state before
                 dens = r.uniform(0.3, 2.0, size=n)
@@ -277,6 +281,8 @@ def search_limits(r, epg, ncase):
             probs.append(("scalar rate differs from its 2-compartment kinetic matrix", float(np.max(np.abs(c - d)))))
         if e.shape != f.shape or np.max(np.abs(e - f)) > 1e-9:
             probs.append(("batched tau differs from each tau alone", e.shape, f.shape))
+        if z1.shape != z0.shape or np.max(np.abs(z1 - z0)) > 1e-12 or np.max(np.abs(z2 - z0)) > 1e-12:
+            probs.append(("zero exchange without relaxation (or tau = 0) with a batched tau is not the identity", z1.shape, z0.shape))
         if not rejected:
             probs.append(("kinetic matrix not conserving the state's equilibrium was accepted (operator object reused: %s)" % reused,
                           dens.tolist(), bad.tolist()))
